@@ -148,7 +148,13 @@ impl SpanBuilder {
         } else if !self.decorators.is_empty() {
             // decorators which are not followed by any operation in this span (e.g. `emit` right
             // before `if.true`, or a body consisting only of decorators): a SPAN block cannot be
-            // empty, so they are attached to a single NOOP
+            // empty, so they are attached to a single NOOP. Debug decorators exist only in debug
+            // mode; materializing a block just for them would make the program hash and the cycle
+            // count depend on the debug flag, so they are dropped instead.
+            if self.decorators.iter().all(|(_, d)| matches!(d, Decorator::Debug(_))) {
+                self.decorators.clear();
+                return;
+            }
             let decorators = self.decorators.drain(..).collect();
             target.push(CodeBlock::new_span_with_decorators(vec![Operation::Noop], decorators));
         }
